@@ -5,7 +5,9 @@ Discrete, the default geometries, MappedGeometry with/without inverse over every
 one function value: cumsum, mean shift, reversal, normalisation, softmax), KLExpansion for
 every number of modes, StepExpansion for every admissible (n_grid, n_steps) and projection, KLExpansion_Full,
 CustomKL) on grids with random offsets / spacings / sizes, unequal and degenerate 2D axes; single vectors,
-batches of 1, 2, 7 columns in C / Fortran / strided memory layout, integer and float dtypes; Samples and
+batches of 1, 2, 7 columns in C / Fortran / strided memory layout, integer and float dtypes; every map input
+(parameters, function values, vectorised function values, CUQIarray / Samples in function form) held C-contiguous,
+Fortran-contiguous, as transposed / moved-axis / strided / reversed views and read-only, with the input compared before/after; Samples and
 CUQIarray conversion chains par -> fun -> vec -> fun -> par; KLExpansion grid re-assignment histories.
 Monitors: outputs of par2fun / fun2par / fun2vec / vec2fun, reported par_shape / fun_shape / funvec_shape /
 *_dim, Samples.funvals/vector/parameters, CUQIarray.funvals/parameters, all at the public API.
@@ -38,12 +40,14 @@ REQUIRED_COUNTERS = {   # about 40 % of what the unchanged tree produces (determ
               "shape_produced_checked": 25000, "shape_reports_checked": 25000, "step_nodes_membership_checked": 120000,
               "step_nonempty_checked": 60000, "one_contribution_nodes_checked": 19000, "projection_idempotence_checked": 5000,
               "samples_conversion_checked": 24000, "array_conversion_checked": 7500, "kl_regrid_stages_checked": 15,
-              "regrid_stages_checked": 6, "refusal_observed": 150, "inadmissible_probed": 24, "coupled_map_samples_checked": 500},
+              "regrid_stages_checked": 6, "refusal_observed": 150, "inadmissible_probed": 24, "coupled_map_samples_checked": 500,
+              "layout_invariance_checked": 70000, "input_unchanged_checked": 70000},
     "thorough": {"reference_map_checked": 78000, "roundtrip_checked": 54000, "batch_columns_checked": 600000,
                  "shape_produced_checked": 130000, "shape_reports_checked": 125000, "step_nodes_membership_checked": 890000,
                  "step_nonempty_checked": 450000, "one_contribution_nodes_checked": 100000, "projection_idempotence_checked": 25000,
                  "samples_conversion_checked": 135000, "array_conversion_checked": 42000, "kl_regrid_stages_checked": 70,
-                 "regrid_stages_checked": 30, "refusal_observed": 1000, "inadmissible_probed": 72, "coupled_map_samples_checked": 3000},
+                 "regrid_stages_checked": 30, "refusal_observed": 1000, "inadmissible_probed": 72, "coupled_map_samples_checked": 3000,
+                 "layout_invariance_checked": 330000, "input_unchanged_checked": 330000},
 }
 BUDGET_S = {"quick": 240.0, "thorough": 1500.0}
 
@@ -687,6 +691,92 @@ def _compare_batch(ctx, d, via, got, cols, k, lay):
             ctx.violation("batch_not_columnwise", _cfg(d, via=via, input="batch", columns=kk),
                           detail=f"{via} on {k} columns (layout {lay}) differs from the stacked per-column results (max diff {float(np.nanmax(np.abs(got.reshape(ref.shape) - ref))):.3g})")
 
+# -- memory layout of the inputs ------------------------------------------------
+
+LAYOUTS = ("C", "F", "T_view", "moveaxis", "strided", "negstride", "readonly")
+
+def _relayout(X, how):
+    """an array with the values of X held differently in memory"""
+    X = np.ascontiguousarray(X)
+    if how == "F":
+        return np.asfortranarray(X)
+    if how == "T_view":                      # transposed view of a C array (e.g. a transposed meshgrid result)
+        return np.ascontiguousarray(X.T).T
+    if how == "moveaxis":                    # sample axis stored first, viewed last
+        return np.moveaxis(np.ascontiguousarray(np.moveaxis(X, -1, 0)), 0, -1) if X.ndim >= 2 else X[:]
+    if how == "strided":
+        big = np.zeros((2 * X.shape[0],) + X.shape[1:], dtype=X.dtype) if X.ndim else X.copy()
+        if X.ndim:
+            big[::2] = X
+            return big[::2]
+        return big
+    if how == "negstride":
+        return np.ascontiguousarray(X[::-1])[::-1] if X.ndim else X.copy()
+    Y = X.copy()
+    if how == "readonly":
+        Y.setflags(write=False)
+    return Y
+
+def probe_layouts(ctx, d, rs, batch=True):
+    """the result of every map depends on the values of its input only, never on how the array is held in memory
+    (C / Fortran / transposed / strided / reversed / read-only), and the input is left unchanged."""
+    g = d.geom
+    sk = f"{d.cfg['impl']}:{d.cfg['degenerate']}"
+    import cuqi
+    CA, SA = cuqi.array.CUQIarray, cuqi.samples.Samples
+    ks = (None, 3) if (batch and d.columnwise) else (None,)
+    for k in ks:
+        inp = "single" if k is None else "batch"
+        P = d.sample_par(rs, k)
+        F = d.sample_fun(rs, k) if (d.offers_f2p and not d.skip_inverse) else None
+        jobs = [("par2fun", g.par2fun, P)]
+        if F is not None:
+            jobs.append(("fun2par", g.fun2par, F))
+            if k is None:
+                jobs.append(("CUQIarray.parameters", lambda X: np.asarray(CA(X, is_par=False, geometry=g).parameters), F))
+            else:
+                isv = len(d.fun_shape) == 1
+                jobs.append(("Samples.parameters", lambda X, isv=isv: np.asarray(SA(X, geometry=g, is_par=False, is_vec=isv).parameters.samples), F))
+        if d.offers_vec:
+            Fv = F if F is not None else None
+            if Fv is None:
+                okf, Fv = _call(ctx, d, "par2fun", inp, g.par2fun, P.copy())
+                Fv = np.asarray(Fv, dtype=float) if okf else None
+            if Fv is not None and tuple(np.shape(Fv)) == (d.fun_shape if k is None else d.fun_shape + (k,)):
+                jobs.append(("fun2vec", g.fun2vec, Fv))
+                okv, V = core.outcome(g.fun2vec, np.ascontiguousarray(Fv))
+                if okv == "value" and np.ndim(V) == (1 if k is None else 2):
+                    jobs.append(("vec2fun", g.vec2fun, np.asarray(V, dtype=float)))
+                if k is not None and len(d.fun_shape) > 1:
+                    jobs.append(("Samples.vector", lambda X: np.asarray(SA(X, geometry=g, is_par=False, is_vec=False).vector.samples), Fv))
+        if k is None:
+            jobs.append(("CUQIarray.funvals", lambda X: np.asarray(CA(X, is_par=True, geometry=g).funvals), P))
+        else:
+            jobs.append(("Samples.funvals", lambda X: np.asarray(SA(X, geometry=g).funvals.samples), P))
+        for via, fn, X in jobs:
+            X = np.ascontiguousarray(np.asarray(X, dtype=float))
+            kind0, base = core.outcome(fn, X.copy())
+            if kind0 != "value":
+                continue                      # refusals / defects of the plain call are judged by the other monitors
+            base = np.array(base, dtype=float)
+            for lay in LAYOUTS:
+                Y = _relayout(X, lay)
+                kind1, got = core.outcome(fn, Y)
+                ctx.count("layout_invariance_checked")
+                if kind1 != "value":
+                    ctx.violation("layout_dependent", _cfg(d, via=via, input=inp, layout=lay, exc=type(got).__name__),
+                                  detail=f"{via} accepts the values in a C-contiguous array but raised {type(got).__name__} for the same values held as '{lay}': {core.short(str(got), 160)}")
+                    continue
+                got = np.asarray(got, dtype=float)
+                if got.shape != base.shape or not _eqv(ctx, d, got, base):
+                    md = float(np.nanmax(np.abs(got - base))) if got.shape == base.shape and got.size else float("nan")
+                    ctx.violation("layout_dependent", _cfg(d, via=via, input=inp, layout=lay),
+                                  detail=f"{via} of the same values gives a different result when the input array is held as '{lay}' (shape {got.shape} vs {base.shape}, max diff {md:.3g})")
+                ctx.count("input_unchanged_checked")
+                if Y.shape != X.shape or not np.array_equal(np.asarray(Y), X, equal_nan=True):
+                    ctx.violation("input_mutated", _cfg(d, via=via, input=inp, layout=lay), detail=f"{via} changed the array it was given (layout '{lay}')")
+    ctx.nontrivial(sk + ":layout")
+
 # -- StepExpansion structure ---------------------------------------------------
 
 def probe_step_structure(ctx, d):
@@ -918,6 +1008,10 @@ def probe_all(ctx, d, rs, level):
         probe_single(ctx, d, rs, rep, dtype="int")
     if d.linear and (level >= 2 or d.par_dim <= 12):
         probe_contribution(ctx, d)
+    if level >= 2:
+        probe_layouts(ctx, d, rs)
+    elif level == 1 and d.par_dim <= 8:
+        probe_layouts(ctx, d, rs)
     if not d.columnwise:
         ctx.count("batch_skipped_coupled_map")       # the user's map is only defined on one function value at a time
         for Ns in (1, 2, 7):
